@@ -1,0 +1,12 @@
+//go:build verif
+
+package allocator
+
+import "context"
+
+// VerifCleanupExpiredFromStore runs the store half of one epochLoop tick
+// (cleanupExpiredFromStore) synchronously, so that a harness can drive epoch ticks
+// without a wall-clock ticker: AdvanceEpoch() followed by this call is one tick.
+func (da *DistributedAllocator) VerifCleanupExpiredFromStore(ctx context.Context, currentEpoch uint64) {
+	da.cleanupExpiredFromStore(ctx, currentEpoch)
+}
